@@ -767,7 +767,9 @@ class Context:
                 raise ValueError(f"Unexpected token {name}")
 
             def parse_int(literal):
-                # JSON numbers are doubles
+                # JSON numbers are doubles (-0 keeps its sign)
+                if literal.lstrip("-").strip("0") == "" and literal[0] == "-":
+                    return -0.0
                 return int(literal) if len(literal) <= 15 else float(literal)
 
             try:
